@@ -17,6 +17,7 @@ class Crate:
         self.adts = d["adts"]
         self.impls = d["impls"]
         self.fns = d["fns"]
+        self.exports = dict((a, b) for a, b in d.get("exports", []))
         self.n_bodies = d["n_bodies"]
         self._mir_path = mir_path
         self._mir = None
